@@ -238,7 +238,14 @@ def run_root_case(case):
                 if es is None:
                     es = P.build_eqsys(case["names"], _rxns_of(case), case["K"])
                 x, success, sane = _call(es, case, chain)
-            except Exception as e:  # chempy raising on a valid input is a violation
+            except Exception as e:  # chempy raising on a valid input is a violation ...
+                if type(e) is Exception and "conditional_maxiter reached" in str(e):
+                    # ... except the delegated solver's own explicit give-up signal (pyneqsys raises a bare
+                    # Exception when the precipitate on/off switching does not settle): no success is claimed,
+                    # which is all the (conditional) property asks for.  Counted as a failure in success_rate.
+                    out.append({"chain": chain, "claimed": False, "holds": True, "exc": False, "symptom": None,
+                                "detail": "no claim (solver gave up: %s)" % e})
+                    continue
                 out.append({"chain": chain, "claimed": False, "holds": False, "exc": True, "symptom": "exception",
                             "detail": "exception %s: %s" % (type(e).__name__, str(e)[:300])})
                 continue
@@ -341,7 +348,8 @@ def run(tier, seed):
                 "(Log,Lin), (Lin,) and through EqSystem.solve(); contract: success and sane => x_j >= -1e-12, "
                 "|B(x-x0)|_k <= 1e-6*sum|B_kj|(|x_j|+x0_j)+1e-12 for every element and charge, |ln Q_i - ln K_i| <= 1e-5 "
                 "for every homogeneous equilibrium, for a salt: (solid > 1e-10 and |ln IP - ln Ksp| <= 1e-5) or "
-                "(solid <= 1e-10 and IP <= Ksp(1+1e-5)); an exception is a violation; oracle from a hand-written "
+                "(solid <= 1e-10 and IP <= Ksp(1+1e-5)); an exception is a violation (except pyneqsys' explicit give-up "
+                "'conditional_maxiter reached', which claims nothing); oracle from a hand-written "
                 "composition table.  Chain 'Lin' is the region of known finding F-C08." % (len(P.POOL) - 2),
         "bound": "%d homogeneous + %d precipitation cases + 1 witness, 5 solver paths each; <= 4 equilibria, <= 11 species; "
                  "measured: %d calls, %d claims of success and sane" % (len(homog), len(precip), calls, claims),
